@@ -77,12 +77,13 @@ Definition x_neuter (x : xkey) : xkey := XPub (x_skey x).
 (** ExtendedKey.DeriveNonStandard(i) with the raw uint32 child number:
     [None] = ErrDeriveHardFromPublic.  (Invalid children, probability 2^-127
     per step, are not modelled: an admissible step always succeeds.) *)
+Definition is_hardened (i : N) : bool := hardened_start <=? i.
+Definition raw_child (k : skey) (i : N) : skey :=
+  if is_hardened i then child k (i - hardened_start) true else child k i false.
 Definition x_derive (x : xkey) (i : N) : option xkey :=
-  let hard := hardened_start <=? i in
-  let n := if hard then i - hardened_start else i in
   match x with
-  | XPriv k => Some (XPriv (child k n hard))
-  | XPub k => if hard then None else Some (XPub (child k n false))
+  | XPriv k => Some (XPriv (raw_child k i))
+  | XPub k => if is_hardened i then None else Some (XPub (raw_child k i))
   end.
 
 (** Address formats (waddrmgr.AddressType of pubkey addresses). *)
